@@ -5,7 +5,7 @@
 //!
 //! Op lines and observation format: see lean/RepeVerif/Driver/Transfer.lean (both sides print the
 //! same text; `enum` lines are enumerated by both sides in the same canonical order).
-use repe::{NotifyBody, PeerHandle, PeerId, PeerSendError, PeerSink, ReconnectOutcome, ResumeRejection, TransferControl};
+use repe::{NotifyBody, PeerHandle, PeerId, PeerSendError, PeerSink, ReconnectOutcome, ResumeRejection, TransferControl, TransferRegistry};
 use repe_verif_harness::*;
 use std::sync::Arc;
 use std::time::{Duration, Instant};
@@ -153,7 +153,12 @@ fn show_chunk(c: &Chunk) -> String {
 }
 
 /// reason strings are `r<k>`; printed as `k` (anything else prints as `?<text>` and will not match the model)
+const IDLE_REASON: u64 = 1_000_000_007;
+
 fn show_reason(r: &str) -> String {
+    if r == "transfer idle" {
+        return IDLE_REASON.to_string();
+    }
     match r.strip_prefix('r').and_then(|k| k.parse::<u64>().ok()) {
         Some(k) => k.to_string(),
         None => format!("?{}", r),
@@ -297,7 +302,8 @@ fn call_tc(tc: &TransferControl, op: &Op) -> Ret {
                 Ret::Unit
             }
             Op::Cancel(r) => {
-                tc.cancel(format!("r{}", r));
+                // reason token 1000000007 is the watchdog's own reason string
+                tc.cancel(if *r == IDLE_REASON { "transfer idle".to_string() } else { format!("r{}", r) });
                 Ret::Unit
             }
             Op::Advance(f) => {
@@ -415,7 +421,9 @@ static RING_FAMILY: std::sync::atomic::AtomicBool = std::sync::atomic::AtomicBoo
 
 fn relevant(sig: &str) -> bool {
     let c13 = ["transfer.ring.", "transfer.resume.", "transfer.reconnect.", "transfer.advance."].iter().any(|p| sig.starts_with(p));
-    if sig.starts_with("transfer.conc.") {
+    // concurrent outcomes concern both properties; "a resume is accepted only before cancellation" is a clause
+    // of C13 as well as of C11
+    if sig.starts_with("transfer.conc.") || sig == "transfer.cancel.resume_accepted" {
         return true;
     }
     if RING_FAMILY.load(std::sync::atomic::Ordering::Relaxed) { c13 } else { !c13 }
@@ -504,7 +512,8 @@ fn oracles(c: &Ctl, op: &Op, ret: &Ret, before: &Option<Snap>, after: &Option<Sn
             _ => {}
         }
     } else if let Op::Cancel(r) = op {
-        if a.reason.as_deref() != Some(&format!("r{}", r)[..]) {
+        let want = if *r == IDLE_REASON { "transfer idle".to_string() } else { format!("r{}", r) };
+        if a.reason.as_deref() != Some(&want[..]) {
             fail("transfer.cancel.not_recorded", format!("first cancel(r{}) left reason {:?}", r, a.reason));
         }
     }
@@ -602,14 +611,33 @@ struct Exec {
 }
 
 /// One step on the real object with the direct oracles; returns (ret, after-snapshot, state changed).
-fn do_op(ctl: &mut Ctl, op: &Op, known_before: Option<&Option<Snap>>, fails: &mut Vec<Fail>) -> (Ret, Option<Snap>, bool) {
+fn do_op(ctl: &mut Ctl, op: &Op, known_before: Option<&Option<Snap>>, fails: &mut Vec<Fail>) -> (Ret, Option<Snap>, bool, &'static str) {
     let before = match known_before {
         Some(b) => b.clone(),
         None => ctl.snap(),
     };
     let file_before = ctl.file;
     let expect_before = ctl.expect_pending;
+    // the watchdog's inputs: which of (last_chunk_at, last_ack_at) does this call refresh? Make sure the clock
+    // has moved past both stamps first, so that a refresh is always a strictly later Instant.
+    let tc0 = ctl.tc.clone();
+    let stamps0 = catch(|| tc0.timestamps()).ok();
+    if let Some((c, a)) = stamps0 {
+        while Instant::now() <= c.max(a) {
+            std::hint::spin_loop();
+        }
+    }
     let ret = ctl.call(op);
+    let stamps1 = catch(|| tc0.timestamps()).ok();
+    let stamps = match (stamps0, stamps1) {
+        (Some((c0, a0)), Some((c1, a1))) => match (c1 > c0, a1 > a0) {
+            (false, false) => "00",
+            (true, false) => "10",
+            (false, true) => "01",
+            (true, true) => "11",
+        },
+        _ => "00",
+    };
     let after = ctl.snap();
     // log-derived bookkeeping first: the ring oracle compares against the pushes including this one and the
     // loop oracle applies after a disciplined record_sent; `first_reason` is still the value before this op
@@ -622,7 +650,7 @@ fn do_op(ctl: &mut Ctl, op: &Op, known_before: Option<&Option<Snap>>, fails: &mu
         }
     }
     let changed = before != after;
-    (ret, after, changed)
+    (ret, after, changed, stamps)
 }
 
 fn exec_line(ex: &mut Exec, out: &mut Out, line: &str) -> (String, bool) {
@@ -640,7 +668,7 @@ fn exec_line(ex: &mut Exec, out: &mut Out, line: &str) -> (String, bool) {
     let op = parse_op(&w).unwrap_or_else(|| panic!("unknown op line: {}", line));
     ex.hist.push(line.to_string());
     let mut fails = vec![];
-    let (ret, after, changed) = do_op(&mut ex.ctl, &op, None, &mut fails);
+    let (ret, after, changed, stamps) = do_op(&mut ex.ctl, &op, None, &mut fails);
     for f in fails {
         out.oracle_fail(&f.sig, &f.detail, &ex.hist);
     }
@@ -653,7 +681,10 @@ fn exec_line(ex: &mut Exec, out: &mut Out, line: &str) -> (String, bool) {
         out.count(&format!("changed.{}", op.kind()));
     }
     let nontrivial = changed || !matches!(ret, Ret::Unit | Ret::CreditTimeout | Ret::ReconnTimeout);
-    (format!("{} {} | {}", idx, rs, show_snap(&after)), nontrivial)
+    if stamps != "00" {
+        out.count(&format!("stamps.{}.{}", op.kind(), stamps));
+    }
+    (format!("{} {} | {} ~{}", idx, rs, show_snap(&after), stamps), nontrivial)
 }
 
 // ------------------------------------------------------------------------------------------
@@ -772,7 +803,7 @@ impl Enum {
         let (mut ctl, mut g) = self.build(path);
         let op = concrete(&self.alpha[i], &mut g);
         let mut fails = vec![];
-        let (ret, after, changed) = do_op(&mut ctl, &op, Some(before), &mut fails);
+        let (ret, after, changed, stamps) = do_op(&mut ctl, &op, Some(before), &mut fails);
         if !fails.is_empty() {
             // the failing sequence as plain op lines (a replay executes them one by one)
             let mut ops = vec![format!("mode {}", mode_name()), format!("new 0 {} {}", self.window, self.cap)];
@@ -788,7 +819,7 @@ impl Enum {
         if changed || !matches!(ret, Ret::Unit | Ret::CreditTimeout | Ret::ReconnTimeout) {
             self.nontrivial += 1;
         }
-        let obs = format!("{} | {}\n", show_ret(&ret), show_snap(&after));
+        let obs = format!("{} | {} ~{}\n", show_ret(&ret), show_snap(&after), stamps);
         (fnv_chain(h, obs.as_bytes()), after)
     }
 
@@ -1056,7 +1087,7 @@ fn run_conc(window: u64, cap: u64, setup: &[COp], progs: &[Vec<COp>], reps: u64,
     }
     let t0 = Instant::now();
     for rep in 1..=(reps as usize) {
-        if rep > 20 && t0.elapsed() > budget {
+        if rep > 10 && t0.elapsed() > budget {
             break;
         }
         DROP_SPIN_NS.store(0, std::sync::atomic::Ordering::Relaxed);
@@ -1221,6 +1252,98 @@ fn gen_conc(r: &mut Rng, ring: bool) -> String {
     format!("{} {} {} :: {}", window, cap, if setup.is_empty() { "-".into() } else { setup.join(",") }, progs.join(" "))
 }
 
+
+// ------------------------------------------------------------------------------------------
+// the idle watchdog on a real registry (`watchdog <i>`): a real `spawn_watchdog` thread, a short idle
+// timeout; one-sided waits (the tick is floored at 1 s by the code; we allow 30 s)
+// ------------------------------------------------------------------------------------------
+fn watchdog_scenario() -> (String, Vec<Fail>) {
+    let mut fails: Vec<Fail> = vec![];
+    let mut fail = |sig: &str, detail: String| fails.push(Fail { sig: sig.to_string(), detail });
+    let mk = || {
+        let tc = TransferControl::with_replay_capacity(8, 64);
+        tc.set_peer(peer(3));
+        tc.push_replay(0, 5, false, vec![1, 2, 3, 4, 5]);
+        tc.record_sent(5);
+        tc.record_ack(0, 2);
+        tc
+    };
+    let snap_of = |tc: &Arc<TransferControl>| Ctl { tc: tc.clone(), ..Ctl::new(0, 0) }.snap();
+    let (a, b, c, d) = (mk(), TransferControl::with_replay_capacity(8, 64), TransferControl::with_replay_capacity(8, 64), TransferControl::with_replay_capacity(8, 64));
+    b.cancel("r5");
+    let a_before = snap_of(&a);
+    let reg: Arc<TransferRegistry<u64>> = Arc::new(TransferRegistry::new());
+    let mut reg_ok = true;
+    reg_ok &= reg.is_empty() && reg.len() == 0 && reg.get(1).is_none();
+    reg.register(1, a.clone());
+    reg.register(2, b.clone());
+    reg.register(3, c.clone());
+    reg.register(3, c.clone()); // re-registering a key replaces, does not duplicate
+    reg_ok &= reg.len() == 3 && !reg.is_empty();
+    reg_ok &= reg.get(1).map(|x| Arc::ptr_eq(&x, &a)).unwrap_or(false) && reg.get(9).is_none();
+    reg_ok &= reg.unregister(3).map(|x| Arc::ptr_eq(&x, &c)).unwrap_or(false) && reg.unregister(3).is_none();
+    let mut keys: Vec<u64> = reg.snapshot().into_iter().map(|(k, _)| k).collect();
+    keys.sort();
+    reg_ok &= keys == vec![1, 2] && reg.len() == 2;
+    if !reg_ok {
+        fail("transfer.registry.map_semantics", "register / get / unregister / snapshot / len do not behave as a map from keys to controls".into());
+    }
+    let reg2: Arc<TransferRegistry<u64>> = Arc::new(TransferRegistry::new());
+    reg2.register(4, d.clone());
+    repe::spawn_watchdog(reg.clone(), Duration::from_millis(30));
+    repe::spawn_watchdog(reg2.clone(), Duration::from_secs(3600));
+    let t0 = Instant::now();
+    while !a.is_cancelled() && t0.elapsed() < Duration::from_secs(30) {
+        std::thread::sleep(Duration::from_millis(20));
+    }
+    let show = |tc: &Arc<TransferControl>| match tc.cancel_reason() {
+        None => "-".to_string(),
+        Some(r) if r == "transfer idle" => "idle".to_string(),
+        Some(r) => show_reason(&r),
+    };
+    if !a.is_cancelled() {
+        fail("transfer.watchdog.idle_not_cancelled", "an idle registered transfer was not cancelled within 30 s (idle timeout 30 ms, tick 1 s)".into());
+    }
+    // give a second tick the chance to do more damage, then look
+    std::thread::sleep(Duration::from_millis(1200));
+    let a_after = snap_of(&a);
+    let same = match (&a_before, &a_after) {
+        (Some(x), Some(y)) => {
+            let mut y2 = y.clone();
+            y2.reason = x.reason.clone();
+            y2.is_cancelled = x.is_cancelled;
+            *x == y2
+        }
+        _ => false,
+    };
+    if !same {
+        fail("transfer.watchdog.changed_state", format!("the watchdog changed more than the cancel flag: before {:?} after {:?}", a_before, a_after));
+    }
+    if b.cancel_reason().as_deref() != Some("r5") {
+        fail("transfer.watchdog.overwrote_reason", format!("a transfer cancelled with r5 now has reason {:?}", b.cancel_reason()));
+    }
+    if c.is_cancelled() {
+        fail("transfer.watchdog.cancelled_unregistered", "a transfer that was unregistered before the watchdog started was cancelled".into());
+    }
+    if d.is_cancelled() {
+        fail("transfer.watchdog.cancelled_not_idle", "a transfer with a one-hour idle timeout was cancelled after seconds".into());
+    }
+    drop(reg);
+    drop(reg2);
+    (format!("watchdog A={}/{} B={} C={} D={} reg={}", show(&a), if same { "same" } else { "changed" }, show(&b), show(&c), show(&d), if reg_ok { "ok" } else { "bad" }), fails)
+}
+
+fn exec_watchdog(out: &mut Out, line: &str, res: (String, Vec<Fail>)) {
+    let idx = words(line).get(1).copied().unwrap_or("?").to_string();
+    for f in res.1 {
+        if relevant(&f.sig) {
+            out.oracle_fail(&f.sig, &f.detail, &[format!("mode {}", mode_name()), line.to_string()]);
+        }
+    }
+    out.count("watchdog.scenarios");
+    out.case(line, &format!("{} {}", idx, res.0), true);
+}
+
 // ------------------------------------------------------------------------------------------
 // random long histories over the 64-bit boundary lattice
 // ------------------------------------------------------------------------------------------
@@ -1293,7 +1416,7 @@ fn gen_free(r: &mut Rng, ctl: &Ctl, snap: &Snap, ring_bias: bool) -> Op {
         3 | 4 | 5 => Op::Ack(gen_file(r, ctl.file), lattice(r, &near)),
         6 | 7 => Op::Credit(gen_len(r, ctl.window)),
         8 => {
-            if r.chance(1, 6) { Op::Cancel(r.below(3)) } else { Op::Reconnect }
+            if r.chance(1, 6) { Op::Cancel(if r.chance(1, 3) { IDLE_REASON } else { r.below(3) }) } else { Op::Reconnect }
         }
         9 => {
             if r.chance(1, 3) { Op::Advance(gen_file(r, ctl.file)) } else { Op::SetPeer(r.below(4)) }
@@ -1371,7 +1494,7 @@ fn gen_loop(r: &mut Rng, ctl: &Ctl, snap: &Snap, p: &mut Producer) -> Op {
             6 => Op::Resume(r.range(1, 5), gen_file(r, ctl.file), if snap.ring.is_empty() { lattice(r, &near) } else { r.pick(&snap.ring).off }),
             7 => Op::Reconnect,
             8 => {
-                if r.chance(1, 8) { Op::Cancel(r.below(3)) } else { Op::Replay(lattice(r, &near)) }
+                if r.chance(1, 8) { Op::Cancel(if r.chance(1, 3) { IDLE_REASON } else { r.below(3) }) } else { Op::Replay(lattice(r, &near)) }
             }
             _ => Op::Ack(ctl.file, u64::MAX - r.below(3)),
         };
@@ -1473,6 +1596,9 @@ fn main() {
             out.begin(&line);
             if line.starts_with("enum ") {
                 exec_enum(&mut out, &line);
+            } else if line.starts_with("watchdog ") {
+                let res = watchdog_scenario();
+                exec_watchdog(&mut out, &line, res);
             } else if line.starts_with("conc ") {
                 // a replay races much longer than a regular run
                 exec_conc(&mut out, &line, &ConcCfg { reps: 200_000, budget: Duration::from_secs(20), drop_ns: 40_000 });
@@ -1484,6 +1610,9 @@ fn main() {
         out.finish();
         return;
     }
+
+    // the watchdog scenario needs seconds of wall-clock (the code floors the tick at 1 s): run it beside the rest
+    let wd_thread = if family == "credit" { Some(std::thread::spawn(watchdog_scenario)) } else { None };
 
     // corpus: F3 (DESIGN.md §9) first
     let corpus: &[&str] = if family == "ring" { &[] } else { &["new c0 8 8", "sent c1 18446744073709551615", "credit c2 1", "new c3 8 8", "sent c4 18446744073709551615", "ack c5 0 5", "credit c6 6"] };
@@ -1531,6 +1660,15 @@ fn main() {
     let (histories, max_len) = if thorough { (6000, 200) } else { (600, 200) };
     run_random(&mut ex, &mut out, &mut rng, histories, max_len, ring_bias, &mut k);
 
+    if let Some(h) = wd_thread {
+        let line = "watchdog wd0";
+        out.begin(line);
+        match h.join() {
+            Ok(res) => exec_watchdog(&mut out, line, res),
+            Err(_) => out.oracle_fail("transfer.watchdog.scenario_panicked", "the watchdog scenario panicked", &[line.to_string()]),
+        }
+    }
+
     // concurrent callers: targeted races first, then generated ones
     out.rule.push_str(" | conc: 2-3 threads x 1-3 calls (resume / cancel / advance / ack / sent / credit / reconnect and the reads offsets, is_cancelled, cancel_reason, peer) released from a spin barrier on one real object whose displaced peer's sink takes a few microseconds to drop; the outcome (all return values + final state + what a reconnect wait hands over) must be the outcome of a sequential order respecting program order, decided on the real object's own sequential runs (oracle) and by the model (diff); non-trivial = more than one sequential outcome");
     let (t_reps, t_budget, g_n, g_reps, g_budget) = if thorough { (60_000, 2000, 600, 1500, 100) } else { (12_000, 450, 110, 300, 25) };
@@ -1541,7 +1679,15 @@ fn main() {
         out.begin(&line);
         exec_conc(&mut out, &line, &ConcCfg { reps: t_reps, budget: Duration::from_millis(t_budget), drop_ns: 40_000 });
     }
+    // generated races stop when their share of the wall clock is used (a saturated machine runs fewer specs,
+    // never a different verdict)
+    let g_wall = Duration::from_secs(if thorough { 90 } else { 9 });
+    let g_t0 = Instant::now();
     for _ in 0..g_n {
+        if g_t0.elapsed() > g_wall {
+            out.count("conc.generated_specs_skipped_wall_budget");
+            continue;
+        }
         let line = format!("conc q{} {}", ci, gen_conc(&mut rng, ring_bias));
         ci += 1;
         out.begin(&line);
